@@ -4,7 +4,8 @@ HOOK_COMMITS = ['5cf62d3', 'acf6989', 'c068a63', '0559a05']
 NOTES = ('hooks.add_only is false for one reason only: a loop contract has to stand between a loop header and its body, so each hooked '
          'loop header line "for (...) {" became "for (...)" + "EAV_VERIF_LOOP(id)" + "{" (brace moved to its own line; the `;` of one empty-bodied for loop likewise). '
          'No other existing line is changed. All counts in evidence files are measured per run. Genuine defects found and repaired are listed in '
-         'known_findings.json (fixed:) and DESIGN.md section 8. Exit codes of every check: 0 all obligations discharged, 1 VIOLATION, 2 undecided (tool error, timeout, vacuity guard).')
+         'known_findings.json (fixed:) and DESIGN.md section 8. Exit codes of every check: 0 all obligations discharged, 1 VIOLATION, 2 undecided (tool error, timeout, vacuity guard). '
+         'When the verifier cannot decide a job on a changed tree (e.g. a new loop without contract), the check additionally runs the replay oracle\'s search (real code vs the specification macros) and reports a VIOLATION only if that finds and replays a concrete disagreeing input; this fallback is differential testing, is labelled as such, and never runs when all jobs are decided.')
 NOT_APPLICABLE = {}
 
 TECH = 'CBMC 6.11 code contracts on the real source files: goto-instrument --dfcc --enforce-contract / --replace-call-with-contract / --apply-loop-contracts, ghost specification automata, SAT (cadical/minisat2)'
